@@ -393,8 +393,8 @@ pub(crate) fn add_contdist_rectangular<W, R, T>(
             let a1 = xraise!(eval(&args[1], ns, &rt)?);
             let f0 = to_primitive!(a0, Float);
             let f1 = to_primitive!(a1, Float);
-            if !(*f1 - *f0).is_finite() {
-                // sampling draws from [min, max] through its width
+            if !((*f1 - *f0) / (1.0 - f64::EPSILON)).is_finite() {
+                // sampling draws from [min, max] through its width, scaled up to include max
                 return xerr(ManagedXError::new("range of the distribution is too wide", rt)?);
             }
             let ret = match Uniform::new(*f0, *f1) {
